@@ -50,7 +50,7 @@ RUNAWAY = 3000  # far above anything a legal schedule produces (<= 60 invocation
 
 def budget(tier: str) -> dict[str, Any]:
     if tier == "quick":
-        return {"shards": 8, "cases": 400}
+        return {"shards": 8, "cases": 4000}
     return {"shards": 32, "cases": 3000, "hashseeds": [0, 1, 2, 3], "exhaustive": True}
 
 
